@@ -173,7 +173,7 @@ class Mini:
 
     def _call(self, e, env):
         fn = e.func
-        if e.keywords and not (isinstance(fn, ast.Name) and fn.id in self.funcs):
+        if e.keywords and not (isinstance(fn, ast.Name) and (fn.id in self.funcs or fn.id == "sorted")):
             raise NoEval("keyword arguments")
         if isinstance(fn, ast.Name):
             if fn.id == "slice":
@@ -196,6 +196,10 @@ class Mini:
                 kw = {k.arg: self.ev(k.value, env) for k in e.keywords}
                 return self.call(self.funcs[fn.id], args, kw)
             if fn.id in _PURE_BUILTINS:
+                if e.keywords:
+                    if fn.id == "sorted" and all(k.arg == "reverse" for k in e.keywords):
+                        return sorted(self.ev(e.args[0], env), reverse=bool(self.ev(e.keywords[0].value, env)))
+                    raise NoEval("keyword arguments")
                 return _PURE_BUILTINS[fn.id](*[self.ev(a, env) for a in e.args])
             raise NoEval(f"call of {fn.id}")
         if isinstance(fn, ast.Attribute):
@@ -208,6 +212,10 @@ class Mini:
                     else:
                         acc = acc * v if ast.unparse(e.args[0]) == "operator.mul" else acc + v
                 return acc
+            if ast.unparse(fn) in ("bisect.bisect_left", "bisect.bisect_right", "bisect.bisect") and len(e.args) == 2:
+                import bisect as _b
+                seq, x = self.ev(e.args[0], env), self.ev(e.args[1], env)
+                return (_b.bisect_left if fn.attr == "bisect_left" else _b.bisect_right)(seq, x)
             recv = self.ev(fn.value, env)
             self._check_method(recv, fn.attr)
             return getattr(recv, fn.attr)(*[self.ev(a, env) for a in e.args])
@@ -286,6 +294,17 @@ class Mini:
                 raise _Break()
             elif isinstance(st, ast.Pass):
                 pass
+            elif isinstance(st, ast.Delete):
+                for t in st.targets:
+                    if isinstance(t, ast.Subscript):
+                        del self.ev(t.value, env)[self.ev(t.slice, env)]
+                    elif isinstance(t, ast.Name):
+                        env.pop(t.id, None)
+                    else:
+                        raise NoEval("del target")
+            elif isinstance(st, ast.Assert):
+                if not self.ev(st.test, env):
+                    raise Raised("AssertionError")
             elif isinstance(st, ast.Raise):
                 raise Raised(ast.unparse(st)[:80])
             else:
